@@ -70,6 +70,22 @@ func (dr *DocumentRef) Calculate(cur currency.Code, rr cbc.Key) {
 	if dr == nil || dr.Tax == nil {
 		return
 	}
+	// The bases of a supplied summary are presented figures: bring them to the
+	// currency's precision first, so that the amounts are worked out from what
+	// is presented and calculating the result again changes nothing.
+	if def := cur.Def(); def != nil {
+		exp := def.Zero().Exp()
+		for _, ct := range dr.Tax.Categories {
+			if ct == nil {
+				continue
+			}
+			for _, rt := range ct.Rates {
+				if rt != nil {
+					rt.Base = rt.Base.Rescale(exp)
+				}
+			}
+		}
+	}
 	dr.Tax.Calculate(cur, rr)
 }
 
